@@ -244,9 +244,9 @@ PROPS["C04"] = {
 PROPS["C02"] = {
     "engine": "h3",
     "level": "exploration",
-    "budget": {"quick": 60, "thorough": 900},
+    "budget": {"quick": 90, "thorough": 900},
     "runs_per_proc": 25,
-    "technique": "deterministic simulation of a 2-3 server cluster (real leader/follower/replicator/commit loops, real epoch-based log reconciliation, real controller failover logic over the Raft stub) with a publisher client; faults: leader and follower crash/restart (repeated), one- and two-way network cuts, message loss/delay, stalls, time passing across the lag/leader-timeout timers; replica logs are compared offset by offset at every operation boundary and after a convergence period",
+    "technique": "deterministic simulation of a 2-3 server cluster (real leader/follower/replicator/commit loops, real epoch-based log reconciliation, real controller failover logic over the Raft stub) with a publisher client; faults: leader and follower crash/restart (repeated), one- and two-way network cuts, message loss/delay, stalls, time passing across the lag/leader-timeout timers; 40% of the programs are generated failover chains (lagging follower, isolated leader with an uncommitted tail, leader crash, election, catch-up across the epoch boundary, re-election, deposed leaders rejoining); replica logs are compared offset by offset at every operation boundary and after a convergence period",
     "level_text": "seeded exploration of interleavings of publish, follower fetch, commit, leader crash, election from the in-sync set, follower restart with epoch-based truncation and ISR shrink/expand, including repeated failovers; oracle: pairwise equality of replicas at every offset both hold at or below both high watermarks; every ALL-acknowledged message is on every later leader at its offset; after convergence on every in-sync replica",
     "level_note": "acks from a server that no longer leads at the ack instant are not counted as commits; Raft is the ordered-commit stub, so metadata-level split brain is not explored",
     "rule": "programs of 6-29 (thorough -75) operations on 2-3 servers; distinct = distinct event-log hash; non-trivial = >=3 messages published and >=1 committed",
